@@ -289,7 +289,8 @@ def run(ctx):
             "border": bool(it % 4 == 0),
             "use_memmap": bool(it % 7 == 3),
             # inner jobs: 2 divides the 24 rotations; 5 and 7 do not (the last job gets the remainder)
-            "jobs": 2 if (it % 3 == 1 and it % 2 == 1) else [5, 2, 7, 2, 2][it % 5],
+            # (with a memory limit the tool may legitimately find no schedule for an odd core count: keep 2 there)
+            "jobs": 2 if it % 2 == 1 else [5, 2, 7, 2, 2][it % 5],
         })
     # it=0: no centring, even box, --pad_edges, score map;  it=1: -p, memory-limited split, 2 cores, odd box, no centring
     # run the subprocess cases on a few workers
